@@ -20,7 +20,7 @@ def harnesses(tier):
                 templates=("F3",), window="always", raises="free", crit_job=False, perm="two", top="pure"),
                 o, sampler=smp, required_notes=("c12_eligible_waiting",)),
             scenario_harness("nested", Profile(
-                templates=("N12",), window="free", perm="id", crit_job=False, raises="free"), o, sampler=smp),
+                templates=("N12", "E3"), window="free", perm="id", crit_job=False, raises="free"), o, sampler=smp),
         ]
     return [
         scenario_harness("flat-unwindowed", Profile(
